@@ -40,6 +40,8 @@
 
 #define CRLF "\r\n"
 
+static LIST_HEAD(connection_list);
+
 static int on_url(http_parser *parser, const char *at, size_t length)
 {
 	struct http_connection *connection = container_of(parser, struct http_connection, parser);
@@ -97,10 +99,21 @@ void free_connection(void *context)
 {
 	struct http_connection *connection = (struct http_connection *)context;
 
+	list_del(&connection->connection_list);
 	struct buffered_reader *br = &connection->br;
 	br->close(br->this_ptr);
 
 	cjet_free(connection);
+}
+
+void close_all_http_connections(void)
+{
+	struct list_head *item;
+	struct list_head *tmp;
+	list_for_each_safe (item, tmp, &connection_list) {
+		struct http_connection *connection = list_entry(item, struct http_connection, connection_list);
+		free_connection(connection);
+	}
 }
 
 int send_http_error_response(struct http_connection *connection)
@@ -153,6 +166,7 @@ int init_http_connection2(struct http_connection *connection, const struct http_
 	connection->status_code = 0;
 	connection->server = server;
 	connection->pending_handler = NULL;
+	list_add_tail(&connection->connection_list, &connection_list);
 	connection->compression_level = compression_level;
 	http_parser_settings_init(&connection->parser_settings);
 	connection->parser_settings.on_url = on_url;
@@ -177,5 +191,9 @@ int init_http_connection(struct http_connection *connection, const struct http_s
 
 struct http_connection *alloc_http_connection(void)
 {
-	return cjet_malloc(sizeof(struct http_connection));
+	struct http_connection *connection = cjet_malloc(sizeof(struct http_connection));
+	if (likely(connection != NULL)) {
+		INIT_LIST_HEAD(&connection->connection_list);
+	}
+	return connection;
 }
